@@ -5,7 +5,7 @@ from pv import common, gen, relgen, detsched
 
 RULE = ("(1) generated calls of find_arg_optimal, find_optimal, optimal_cost_value and projection on relations of "
         "several kinds (matrix, python function, expression) with magnitudes small / float / beyond 2^31 / beyond "
-        "2^63 (float) / +-inf / mixed, variables with and without own cost (dict, function, expression), min and max, "
+        "2^63 (float) / +-inf / mixed / int8-int16-int32 numpy tables whose sums exceed the dtype, variables with and without own cost (dict, function, expression), min and max, "
         "all-equal tables and single-value domains; oracle = enumeration over the harness tables (sets compared as "
         "sets, costs exactly); (2) dsa (A/B/C), adsa and dsatuto run under the deterministic scheduler: every "
         "value_selection made with a full neighbour view must pick a value of the oracle arg-best set (constraints + "
@@ -46,6 +46,11 @@ def one_helper_case(rng, R):
     mode = rng.choice(["min", "max"])
     mag = rng.choice(MAGS)
     which = rng.choice(["find_arg_optimal", "find_optimal", "find_optimal", "optimal_cost_value", "projection"])
+    narrow = None
+    if which == "find_optimal" and rng.random() < 0.15:
+        # tables given as fixed-width numpy arrays (int8 / int16 / int32): each entry fits, sums of entries do not
+        narrow = rng.choice(sorted(relgen.NARROW))
+        mag = narrow
     witness = {"helper": which, "mode": mode, "mag": mag}
     try:
         if which == "find_arg_optimal":
@@ -72,13 +77,15 @@ def one_helper_case(rng, R):
             costs = None
             style = rng.choice(["dict", "func", "expr"])
             if rng.random() < 0.5:
-                costs = [relgen.draw_value(rng, mag if style != "expr" else "small") for _ in x[1]]
+                costs = [relgen.draw_value(rng, (mag if not narrow else "small") if style != "expr" else "small") for _ in x[1]]
             specs = []
-            for ci in range(rng.randint(1, 3)):
+            for ci in range(rng.randint(1, 3) if rng.random() < 0.85 else 0):  # sometimes a variable in no constraint at all
                 others = [v for v in vars_[1:] if rng.random() < 0.7]
                 sv = [x] + others
                 rng.shuffle(sv)
-                spec = {"kind": rng.choice(["matrix", "func_kwargs", "func_pos"]), "name": "c%d" % ci, "mag": mag, "vars": sv}
+                spec = {"kind": rng.choice(["matrix", "func_kwargs", "func_pos"]) if not narrow else "matrix", "name": "c%d" % ci, "mag": mag, "vars": sv}
+                if narrow:
+                    spec["dtype"] = relgen.NARROW_DTYPE[narrow]
                 spec["table"] = {relgen.key_of(sv, a): relgen.draw_value(rng, mag) for a in relgen.all_assignments(sv)}
                 specs.append(spec)
             if rng.random() < 0.08:
@@ -88,6 +95,13 @@ def one_helper_case(rng, R):
             witness.update({"specs": specs, "x": x, "costs": costs, "cost_style": style, "assignment": dict(asg)})
             cache = {}
             cache[x[0]] = build_cost_var(rng, x[0], x[1], costs, style)
+            # the other variables of the scopes may carry their own costs too: those are not part of x's local cost
+            other_costs = {}
+            for ov in vars_[1:]:
+                if rng.random() < 0.5:
+                    other_costs[ov[0]] = [relgen.draw_value(rng, "small") for _ in ov[1]]
+                    cache[ov[0]] = build_cost_var(rng, ov[0], ov[1], other_costs[ov[0]], "dict")
+            witness["other_variables_costs"] = other_costs
             rels = []
             for spec in specs:
                 rel, cache = relgen.build_relation(spec, cache)
